@@ -332,4 +332,20 @@ def check_C05(ctx):
                             % [r[0] for r in runs], assumptions=TRUSTED)
 
 
-CHECKS = {"C11": check_C11, "C09": check_C09, "C16": check_C16, "C17": check_C17, "C15": check_C15, "C10": check_C10, "C12": check_C12, "C08": check_C08, "C13": check_C13, "C20": check_C20, "C05": check_C05}
+# --------------------------------------------------------------------------- C19
+
+def check_C19(ctx):
+    n = 2 if ctx.quick else 3
+    cases, _ = ctx.tlc_mc("MC_C19", mc_cfg({"N": n}, ["SpellScanRoundTrip", "DelimEquivalence", "EmptySelectsDefault", "EmitCase"]),
+                          timeout=3000, heap="16g")
+    validate_by_module(ctx, ctx.run_cases(cases))
+    return finish(ctx, rule="MC_C19: every token list of <= %d tokens (texts, objects, tags x hyphen combinations) x 11 delimiter "
+                            "quadruples (lengths 1-4, regexp metacharacters, shared characters) and the 16 empty-position subsets; "
+                            "TLC checks spell/scan round trip and equivalence with the default spelling on the reference scanner; "
+                            "each spelled source is tokenised by parser.Scan with those delimiters (TraceC05) and 8 programs "
+                            "(hyphens, raw/comment, default delimiters as text, failing object on a later line) are rendered on "
+                            "an engine configured with Delims and validated by TraceRender incl. the error line" % n,
+                  assumptions=TRUSTED)
+
+
+CHECKS = {"C11": check_C11, "C09": check_C09, "C16": check_C16, "C17": check_C17, "C15": check_C15, "C10": check_C10, "C12": check_C12, "C08": check_C08, "C13": check_C13, "C20": check_C20, "C05": check_C05, "C19": check_C19}
